@@ -59,11 +59,20 @@ def check(rep, prop, tier, seed):
     obligations.append(("no_writable_statics_Utils", "Gen.utilsStatics.all (fun x => x.2.2) = true", "by decide"))
     obligations += [("readers_store_only_results_%s" % n, "checkReaders Gen.%s = true" % n, "by decide") for f, n in names if n in ("can", "canBrief", "vss", "vssBrief")]
     obligations += [("rows_%s" % n, "checkRows Spec.%s Gen.%s = true" % (n, n), "by decide +kernel") for f, n in names]
+    # code level: the C subset of CSem has no way to name an object with static storage other than a constant
+    # descriptor table (tools/cir.py puts a function that mentions any other global, or declares a local
+    # static, OUTSIDE the subset, with the reason) — so "inside the subset" implies "touches no shared mutable
+    # object".  The obligation: the functions outside are exactly the VSS value codec known to be outside for
+    # other reasons (structs with pointer members), none of them for a reference to a static object.
+    obligations.append(("c_text_outside_the_subset_is_the_known_list",
+                        "Gen.Cir.outside.map (fun x => x.2.1) = [\"Avtp_Vss_GetVssPath\", \"Avtp_Vss_GetVSSDataStringArrayLength\", "
+                        "\"Avtp_Vss_DeserializeStringArray\", \"Avtp_Vss_GetVssData\", \"Avtp_Vss_SetVssPath\", \"Avtp_Vss_SetVssData\", "
+                        "\"Avtp_Vss_SerializeStringArray\"]", "by decide"))
     general = ["O1722.schedule_independent", "O1722.local_comm", "O1722.shared_region_stable", "O1722.setter_local",
                "O1722.specSet_local", "O1722.getField_depends_only_on_field", "O1722.getter_accesses", "O1722.setter_accesses"]
     atoms_expr = "[" + ", ".join("(\"%s\", Gen.%s.statics.map (fun x => (\"static-is-const:\" ++ x.1, x.2.2)))" % (f["name"], n) for f, n in names) + \
         ", (\"Utils\", Gen.utilsStatics.map (fun x => (\"static-is-const:\" ++ x.1, x.2.2))), (\"Vss\", [(\"readers-store-only-results\", checkReaders Gen.vss)]), (\"Can\", [(\"readers-store-only-results\", checkReaders Gen.can)])]"
-    res = pipeline.proof_stage(rep, prop, ["O1722.Gen.Data", "O1722.Props.Concurrency"], obligations, general, atoms_expr)
+    res = pipeline.proof_stage(rep, prop, ["O1722.Gen.Data", "O1722.Gen.Cir", "O1722.Props.Concurrency"], obligations, general, atoms_expr)
     diff_groups = {}
     bad, nsyms = writable_symbols()
     for b in bad:
